@@ -22,19 +22,21 @@ Section Proofs.
 Variable scalar : Type.
 Variable ssize : scalar -> option N.
 Variable sbool : scalar -> bool.
+Variable amin : N.
+Hypothesis amin_one : amin = 1.
 
 Notation ty := (ty scalar).
 Notation tys := (tys scalar).
 Notation layout := (layout scalar ssize sbool).
 Notation layout_members := (layout_members scalar ssize sbool).
-Notation offsets := (offsets scalar ssize sbool).
-Notation offsets_members := (offsets_members scalar ssize sbool).
+Notation offsets := (offsets scalar ssize sbool amin).
+Notation offsets_members := (offsets_members scalar ssize sbool amin).
 Notation spec_sa := (spec_sa scalar ssize sbool).
 Notation spec_members_sa := (spec_members_sa scalar ssize sbool).
 Notation spec_fields := (spec_fields scalar ssize sbool).
 Notation spec_member_fields := (spec_member_fields scalar ssize sbool).
 Notation spec_total := (spec_total scalar ssize sbool).
-Notation check := (check scalar ssize sbool).
+Notation check := (check scalar ssize sbool amin).
 Notation stride := (stride scalar ssize sbool).
 Notation scalar_layout := (scalar_layout scalar ssize sbool).
 
@@ -75,7 +77,7 @@ Proof. reflexivity. Qed.
 Lemma offsets_arr m t n b : offsets m (TArr t n) b =
   match layout m t with
   | None => []
-  | Some (z, _) => offsets m t b ++ (if 1 <? n then [b + z] else [])
+  | Some (z, _) => offsets m t b ++ (if amin <? n then [b + z] else [])
   end.
 Proof. reflexivity. Qed.
 Lemma offsets_members_cons m t r b c : offsets_members m (TCons t r) b c =
@@ -135,7 +137,7 @@ Proof.
   - apply H.
   - assert (D := proj1 defined_mode_indep t).
     destruct (layout Hlsl t) as [[? ?]|], (layout Metal t) as [[? ?]|]; cbn in D; try congruence.
-    rewrite !app_length, (H b b'). destruct (1 <? n); reflexivity.
+    rewrite !app_length, (H b b'). destruct (amin <? n); reflexivity.
   - assert (D := proj1 defined_mode_indep t).
     destruct (layout Hlsl t) as [[? ?]|], (layout Metal t) as [[? ?]|]; cbn in D; try congruence.
     cbn [length]. rewrite !app_length. f_equal. f_equal; [apply H | apply H0].
@@ -149,7 +151,7 @@ Proof.
   apply ty_tys_ind; intros; unf; try reflexivity.
   - apply H.
   - destruct (layout m t) as [[z a]|]; [|reflexivity].
-    rewrite map_app, H. f_equal. destruct (1 <? n); cbn [map]; [f_equal; lia | reflexivity].
+    rewrite map_app, H. f_equal. destruct (amin <? n); cbn [map]; [f_equal; lia | reflexivity].
   - destruct (layout m t) as [[z a]|]; [|reflexivity].
     cbn [map]. rewrite map_app. f_equal; [lia|]. f_equal.
     + replace (b + d + round_up c a) with (b + round_up c a + d) by lia. apply H.
@@ -182,7 +184,7 @@ Proof.
     destruct (layout Hlsl t) as [[zH aH]|] eqn:LH; [|congruence].
     destruct (layout Metal t) as [[zM aM]|] eqn:LM; [|cbn in D; congruence].
     assert (LH' : layout Hlsl t <> None) by congruence.
-    destruct (N.ltb_spec 1 n) as [Hn|Hn].
+    destruct (N.ltb_spec amin n) as [Hn|Hn]; rewrite amin_one in Hn.
     + apply app_eq_len in H1 as [E1 E2]; [|apply (proj1 offsets_length)].
       inversion E2 as [E3]. assert (zH = zM) by lia. subst zM.
       apply flat_map_ext. intros i. apply H; [congruence|].
